@@ -1971,7 +1971,273 @@ theorem rangeMap_den (s : Store) (h i F : Nat) (n : NodeRec) (c : Pairs) (hs : s
             · left; rw [hf]; rfl
             · right; rw [hr]; simp [Except.map, ho]
 
-theorem merge_is_spec (s : Store) (f : Nat) (i : Nat) (ps : List (String × Nat)) (hflat : AliasFlat s)
+/-! ### 4f. Enough fuel, from the specification alone
+
+  `rangeMap_total` needs `AliasFlat` because some key somewhere in the store may be an alias cycle.
+  When the specification unfolds, every key the walk looks at has a terminating alias chain; such a
+  chain has no repeated node, so `|store| + 1` units of fuel suffice for it. -/
+
+theorem canonicalKey_short_aux (s : Store) : ∀ g i ck (vis : List Nat), canonicalKey s g i = .ok ck →
+    (∀ g', g' < g → ∀ ck', canonicalKey s g' i ≠ .ok ck') →
+    (∀ x ∈ vis, ∀ g' ck', canonicalKey s g' x = .ok ck' → g < g') →
+    canonicalKey s (rem s vis + 1) i = .ok ck := by
+  intro g
+  induction g with
+  | zero => intro i ck vis h; simp [canonicalKey] at h
+  | succ g ih =>
+    intro i ck vis h hmin hvis
+    have hnv : i ∉ vis := fun hin => Nat.lt_irrefl _ (hvis i hin _ _ h)
+    simp only [canonicalKey] at h ⊢
+    cases hs : s[i]? with
+    | none => simp [hs] at h
+    | some n =>
+      have hi := lt_of_getElem? hs
+      simp only [hs] at h ⊢
+      cases hk : n.kind <;> simp only [hk] at h ⊢ <;> try (simp at h; done)
+      · exact h
+      · cases ha : n.aliasTo with
+        | none => simp [ha] at h
+        | some t =>
+          simp only [ha] at h ⊢
+          have hstep : ∀ f, canonicalKey s (f + 1) i = canonicalKey s f t := by
+            intro f; simp [canonicalKey, hs, hk, ha]
+          have hmin' : ∀ g', g' < g → ∀ ck', canonicalKey s g' t ≠ .ok ck' := by
+            intro g' hlt ck' hc
+            exact hmin (g' + 1) (by omega) ck' (by rw [hstep]; exact hc)
+          have hvis' : ∀ x ∈ i :: vis, ∀ g' ck', canonicalKey s g' x = .ok ck' → g < g' := by
+            intro x hx g' ck' hc
+            rcases List.mem_cons.mp hx with rfl | hx
+            · cases g' with
+              | zero => simp [canonicalKey] at hc
+              | succ g' =>
+                rw [hstep] at hc
+                by_cases hlt : g' < g
+                · exact absurd hc (hmin' g' hlt ck')
+                · omega
+            · have := hvis x hx g' ck' hc; omega
+          have := ih t ck (i :: vis) h hmin' hvis'
+          have hr := rem_cons_lt s hi hnv
+          exact canonicalKey_ok_mono this (by omega)
+
+theorem canonicalKey_short {s : Store} {g i : Nat} {ck : String} (h : canonicalKey s g i = .ok ck) :
+    ∀ F, s.length + 1 ≤ F → canonicalKey s F i = .ok ck := by
+  have hex : ∀ g, ∀ ck, canonicalKey s g i = .ok ck →
+      ∃ g0, canonicalKey s g0 i = .ok ck ∧ ∀ g', g' < g0 → ∀ ck', canonicalKey s g' i ≠ .ok ck' := by
+    intro g
+    induction g using Nat.strongRecOn with
+    | _ g ih =>
+      intro ck hc
+      by_cases hex : ∃ g', g' < g ∧ ∃ ck', canonicalKey s g' i = .ok ck'
+      · obtain ⟨g', hlt, ck', hc'⟩ := hex
+        have : ck' = ck := by
+          have := canonicalKey_ok_mono hc' (Nat.le_of_lt hlt)
+          rw [hc] at this
+          exact (Except.ok.inj this).symm
+        subst this
+        exact ih g' hlt _ hc'
+      · exact ⟨g, hc, fun g' hlt ck' hc' => hex ⟨g', hlt, ck', hc'⟩⟩
+  obtain ⟨g0, h0, hmin⟩ := hex g ck h
+  intro F hF
+  have := canonicalKey_short_aux s g0 i ck [] h0 hmin (fun x hx => by cases hx)
+  rw [rem_nil] at this
+  exact canonicalKey_ok_mono this hF
+
+theorem explicitKeys_total {s : Store} : ∀ (ps : List (Nat × Nat)) g ks, explicitKeys s g ps = .ok ks →
+    ∀ F, ps.length + s.length + 2 ≤ F → explicitKeys s F ps ≠ .error .fuel := by
+  intro ps
+  induction ps with
+  | nil =>
+    intro g ks _ F hF
+    obtain ⟨F', rfl⟩ : ∃ F', F = F' + 1 := ⟨F - 1, by omega⟩
+    simp [explicitKeys]
+  | cons p rest ih =>
+    obtain ⟨k, v⟩ := p
+    intro g ks h F hF
+    simp only [List.length_cons] at hF
+    obtain ⟨F', rfl⟩ : ∃ F', F = F' + 1 := ⟨F - 1, by omega⟩
+    cases g with
+    | zero => simp [explicitKeys] at h
+    | succ g =>
+      simp only [explicitKeys] at h ⊢
+      cases hs : s[k]? with
+      | none => simp
+      | some kn =>
+        simp only [hs] at h ⊢
+        cases hm : kn.isMerge <;> simp only [hm, Bool.false_eq_true, ↓reduceIte] at h ⊢
+        case true => exact ih g ks h F' (by omega)
+        case false =>
+          cases hck : canonicalKey s (g + 1) k with
+          | error e => simp [hck] at h
+          | ok ck =>
+            simp only [hck] at h
+            rw [canonicalKey_short hck (F' + 1) (by omega)]
+            simp only []
+            cases hr : explicitKeys s g rest with
+            | error e => simp [hr, Except.map] at h
+            | ok ks' => exact map_ne_error (ih g ks' hr F' (by omega))
+
+/-- Fuel for the walk of something the specification can unfold. -/
+def need2 (s : Store) (m : List Nat) : Nat := need s m + s.length + 1
+
+def TH (s : Store) (hb : Nat) : Prop :=
+  ∀ o c, den s hb o = .ok c → ∀ F lv st, need2 s st.merged ≤ F → rangeImpl s F lv st o ≠ .error .fuel
+
+theorem seq_total {s : Store} {hb : Nat} (hT : TH s hb) : ∀ l c, seqD (den s hb) l = .ok c →
+    ∀ F lv st, l.length + 1 + need2 s st.merged ≤ F → rangeSeq s F lv st l ≠ .error .fuel := by
+  intro l
+  induction l with
+  | nil =>
+    intro c _ F lv st hF
+    obtain ⟨F', rfl⟩ : ∃ F', F = F' + 1 := ⟨F - 1, by omega⟩
+    simp [rangeSeq]
+  | cons e rest ih =>
+    intro c hc F lv st hF
+    simp only [List.length_cons] at hF
+    obtain ⟨F', rfl⟩ : ∃ F', F = F' + 1 := ⟨F - 1, by omega⟩
+    simp only [seqD] at hc
+    cases h1 : den s hb (some e) with
+    | error err => simp [h1] at hc
+    | ok a =>
+      simp only [h1] at hc
+      cases h2 : seqD (den s hb) rest with
+      | error err => simp [h2] at hc
+      | ok b =>
+        simp only [rangeSeq]
+        cases hr : rangeImpl s F' lv st (some e) with
+        | error err =>
+          simp only []
+          intro h; cases h
+          exact hT _ _ h1 F' lv st (by omega) hr
+        | ok r =>
+          obtain ⟨lv1, st1⟩ := r
+          have hm := need_mono s ((range_inv s F').1 _ _ _ _ _ hr).1
+          exact ih b h2 F' lv1 st1 (by unfold need2 at hF ⊢; omega)
+
+theorem pairs_total {s : Store} {hb g : Nat} (hT : TH s hb) : ∀ ps have_ Δ,
+    pairsD s (den s hb) g have_ ps = .ok Δ →
+    ∀ F cur outer st, ps.length + 1 + need2 s st.merged ≤ F →
+    rangePairs s F cur outer st ps ≠ .error .fuel := by
+  intro ps
+  induction ps with
+  | nil =>
+    intro have_ Δ _ F cur outer st hF
+    obtain ⟨F', rfl⟩ : ∃ F', F = F' + 1 := ⟨F - 1, by omega⟩
+    simp [rangePairs]
+  | cons p rest ih =>
+    obtain ⟨k, v⟩ := p
+    intro have_ Δ hΔ F cur outer st hF
+    simp only [List.length_cons] at hF
+    obtain ⟨F', rfl⟩ : ∃ F', F = F' + 1 := ⟨F - 1, by omega⟩
+    simp only [pairsD] at hΔ
+    simp only [rangePairs]
+    cases hs : s[k]? with
+    | none => simp
+    | some kn =>
+      simp only [hs] at hΔ ⊢
+      cases hm : kn.isMerge <;> simp only [hm, Bool.false_eq_true, ↓reduceIte] at hΔ ⊢
+      case true =>
+        cases h1 : den s hb (some v) with
+        | error e => simp [h1] at hΔ
+        | ok c =>
+          simp only [h1] at hΔ
+          cases h2 : pairsD s (den s hb) g ((keysOf (fresh have_ c)).reverse ++ have_) rest with
+          | error e => simp [h2] at hΔ
+          | ok r =>
+            cases hr : rangeImpl s F' (cur :: outer) st (some v) with
+            | error e =>
+              simp only []
+              intro h; cases h
+              exact hT _ _ h1 F' _ st (by omega) hr
+            | ok res =>
+              obtain ⟨lv1, st1⟩ := res
+              have hmn := need_mono s ((range_inv s F').1 _ _ _ _ _ hr).1
+              cases lv1 with
+              | nil => exact ih _ _ h2 F' _ _ st1 (by unfold need2 at hF ⊢; omega)
+              | cons c1 o1 => exact ih _ _ h2 F' _ _ st1 (by unfold need2 at hF ⊢; omega)
+      case false =>
+        cases h1 : canonicalKey s g k with
+        | error e => simp [h1] at hΔ
+        | ok ck =>
+          simp only [h1] at hΔ
+          cases h2 : pairsD s (den s hb) g have_ rest with
+          | error e => simp [h2] at hΔ
+          | ok r =>
+            rw [canonicalKey_short h1 (F' + 1) (by unfold need2 at hF; omega)]
+            simp only []
+            split
+            · exact ih _ _ h2 F' _ _ st (by omega)
+            · exact ih _ _ h2 F' _ _ { st with out := st.out ++ [(ck, v)] } (by simp only []; omega)
+
+theorem den_total (s : Store) : ∀ h, TH s h := by
+  intro h
+  induction h with
+  | zero => intro o c hd; simp [den] at hd
+  | succ hb ih =>
+    intro o c hd F lv st hF
+    have hpos := need_pos s st.merged
+    obtain ⟨F', rfl⟩ : ∃ F', F = F' + 1 := ⟨F - 1, by unfold need2 at hF; omega⟩
+    cases o with
+    | none => simp [rangeImpl]
+    | some v =>
+      simp only [rangeImpl]
+      split
+      · simp
+      · next hc =>
+        have hc' : v ∉ st.merged := by simpa using hc
+        simp only [den] at hd
+        cases hs : s[v]? with
+        | none => simp
+        | some n =>
+          have hi := lt_of_getElem? hs
+          have hnc := need_cons s hi hc'
+          have hcont := content_le hs
+          simp only [hs] at hd ⊢
+          cases hk : n.kind <;> simp only [hk] at hd ⊢ <;> try (simp; done)
+          · -- sequence
+            exact seq_total ih _ _ hd F' lv _ (by unfold need2 at hF ⊢; simp only []; omega)
+          · -- mapping
+            cases hp : pairsOf n.content with
+            | none => simp
+            | some ps =>
+              have hlen := pairsOf_length _ _ hp
+              simp only [hp] at hd ⊢
+              cases he : explicitKeys s (hb + 1) ps with
+              | error e => simp [he] at hd
+              | ok ks =>
+                simp only [he] at hd
+                cases he' : explicitKeys s F' ps with
+                | error e =>
+                  simp only []
+                  intro h; cases h
+                  exact explicitKeys_total ps _ _ he F' (by unfold need2 at hF; omega) he'
+                | ok ks' =>
+                  have : ks' = ks := by
+                    rcases explicitKeys_agree (F := F') he with h | h
+                    · rw [he'] at h; cases h
+                    · rw [he'] at h; exact Except.ok.inj h
+                  subst this
+                  simp only []
+                  cases hr : rangePairs s F' ks' lv { merged := v :: st.merged, out := st.out } ps with
+                  | error e =>
+                    simp only []
+                    intro h; cases h
+                    exact pairs_total ih ps ks' c hd F' ks' lv _ (by unfold need2 at hF ⊢; simp only []; omega) hr
+                  | ok r => simp
+          · -- alias
+            exact ih _ _ hd F' lv _ (by unfold need2 at hF ⊢; simp only []; omega)
+
+theorem need2_le_bound (s : Store) : need2 s [] ≤ bound s := by
+  unfold need2 need bound maxList
+  rw [rem_nil]
+  have h1 : s.length * (maxContent s + 2) + s.length ≤ s.length * ((s.length + 1) * maxContent s + 3) := by
+    have : maxContent s ≤ (s.length + 1) * maxContent s := Nat.le_mul_of_pos_left _ (by omega)
+    calc s.length * (maxContent s + 2) + s.length = s.length * (maxContent s + 3) := by
+            rw [Nat.mul_add, Nat.mul_add]; omega
+      _ ≤ _ := Nat.mul_le_mul_left _ (by omega)
+  rw [Nat.add_mul (s.length) 2]
+  omega
+
+theorem merge_is_spec (s : Store) (f : Nat) (i : Nat) (ps : List (String × Nat))
     (h : specContent s f i = .ok ps) : rangeMap s (bound s) i = .ok ps := by
   obtain ⟨hh, hd⟩ := specContent_den s f i ps h
   cases f with
@@ -1984,7 +2250,12 @@ theorem merge_is_spec (s : Store) (f : Nat) (i : Nat) (ps : List (String × Nat)
       simp only [hs] at h
       cases hk : n.kind <;> simp only [hk] at h <;> try (simp at h; done)
       rcases rangeMap_den s hh i (bound s) n ps hs hk hd with hf | hok
-      · exact absurd hf (rangeMap_total s i hflat)
+      · exfalso
+        unfold rangeMap at hf
+        have := den_total s hh _ _ hd (bound s) [] { merged := [], out := [] } (need2_le_bound s)
+        cases hr : rangeImpl s (bound s) [] { merged := [], out := [] } (some i) with
+        | error e => rw [hr] at hf this; simp only [Except.map] at hf; cases hf; exact this rfl
+        | ok r => rw [hr] at hf; simp [Except.map] at hf
       · exact hok
 
 end GoPipeline.Yaml
